@@ -328,6 +328,17 @@ def c19(run):
                            "decision trees on real tables (leaf index sets validated), real rayon runs with collecting and short-circuiting consumers on pools of 1..64 threads")
 
 
+def c20(run):
+    return generic_check(run, [], [],
+        [("serde", ["map:kv16:collide:24:900:serde", "map:k4v4:zero:14:400:serde"]),
+         ("serdeset", ["set:k8t:collide:20:700:serdeset", "set:k1:fewpos:16:300:serdeset"])],
+        [("serde2", ["map:kv24:mixed:40:4000:serde", "map:kv200:collide:20:2000:serde", "set:k8t:zero:14:3000:serdeset"]),
+         ("serdeg", ["map:kv16:collide:24:2000:serde", "set:k8t:collide:20:2000:serdeset"], G)],
+        "serialize/deserialize round trips of maps and sets built by random histories; deserialisation from mock inputs with repeated keys, "
+        "honest / absent / lying size hints up to usize::MAX and an error injected at every position; contents, drops and the size of every "
+        "allocation request validated")
+
+
 def c13(run):
     return generic_check(run, [("MC_map_w2churn.cfg", "MC_map.tla", {"timeout": 300})], [],
         [("churn", ["map:kv16:collide:12:3000:churn", "map:kv16:zero:10:2000:churn"]),
@@ -371,6 +382,7 @@ CHECKS = {
     "C17": c17,
     "C18": c18,
     "C19": c19,
+    "C20": c20,
     "C14": c14,
     "C15": c15,
 }
